@@ -272,6 +272,10 @@ def _post(case, impl):
                     pre.append(foreign(l))
         if kill_at is not None and live_id[0] is not None:
             dead.add(live_id[0])
+        if ev.startswith("EvActAccept") or ev == "EvActAbort":
+            # the session ends here: reader and matcher are killed inside this handler, what their threads
+            # log while dying is not part of the protocol
+            pre, post = [], []
         toks.extend(pre)
         snap = None
         info = None
